@@ -680,12 +680,12 @@ impl<'a> Runner<'a> {
     }
 
     /// C18: requests the server must refuse, framed by full dumps (HTTP subjects only).
-    fn mon_refused(&mut self, c: usize) {
+    fn mon_refused(&mut self, c: usize, own_id_only: bool) {
         use crate::http::{HttpReq, CT_HISTORY, CT_SNAPSHOT};
         let known = self.clients[c].id.to_string();
         let stranger = self.stranger.to_string();
         let latest = self.clients[c].latest();
-        let which = self.rng.usize(10);
+        let which = if own_id_only { *self.rng.pick(&[1usize, 1, 3, 4, 5, 7, 9]) } else { self.rng.usize(10) };
         let (name, req): (&str, HttpReq) = match which {
             0 => ("add-version with empty body from a never-seen client", HttpReq::new("POST", &format!("/v1/client/add-version/{}", Uuid::nil())).header("X-Client-Id", &stranger).header("Content-Type", CT_HISTORY)),
             1 => ("add-version with empty body", HttpReq::new("POST", &format!("/v1/client/add-version/{latest}")).header("X-Client-Id", &known).header("Content-Type", CT_HISTORY)),
@@ -698,15 +698,18 @@ impl<'a> Runner<'a> {
             8 => ("add-snapshot from a never-seen client", HttpReq::new("POST", &format!("/v1/client/add-snapshot/{latest}")).header("X-Client-Id", &stranger).header("Content-Type", CT_SNAPSHOT).body(vec![7; 30])),
             _ => ("request to an unknown route", HttpReq::new("POST", "/v1/client/add-version").header("X-Client-Id", &known).header("Content-Type", CT_HISTORY).body(vec![1])),
         };
-        let before = self.dump();
+        let before = if self.mon.frame { Some(self.dump()) } else { None };
         let resp = self.subj.http(&req);
         self.cov.evaluations += 1;
-        let after = self.dump();
+        let after = if self.mon.frame { Some(self.dump()) } else { None };
         self.cov.hit(format!("frame:refused:{name}:status={}", resp.status));
-        if (400..500).contains(&resp.status) && before != after {
+        if own_id_only {
+            self.cov.hit(format!("refused-before-first-request:{name}"));
+        }
+        if self.mon.frame && (400..500).contains(&resp.status) && before != after {
             self.v("C18", format!(
                 "refused request ({name}: {}) on {} was answered {} but stored state changed: {}",
-                req.describe(), self.subj.kind.name(), resp.status, before.diff(&after)
+                req.describe(), self.subj.kind.name(), resp.status, before.as_ref().unwrap().diff(after.as_ref().unwrap())
             ));
         }
     }
@@ -872,6 +875,12 @@ impl<'a> Runner<'a> {
             }
             let c = op.client;
             self.cur_client = c;
+            // a request the HTTP layer refuses on its own, from a client the server has not seen yet,
+            // right before that client's next real request (which must be answered as for a
+            // never-seen client)
+            if (self.mon.frame || self.mon.facts) && self.subj.kind.entry == Entry::Http && !self.clients[c].touched && self.rng.pct(35) {
+                self.mon_refused(c, true);
+            }
             let creqs = self.concrete(i, op);
             let need_dump = self.mon.frame || self.mon.cas || self.mon.snapwin || self.mon.isolation;
             let mut op_resps = vec![];
@@ -1266,7 +1275,7 @@ impl<'a> Runner<'a> {
                 self.mon_broken_upload(c);
             }
             if self.mon.frame && self.subj.kind.entry == Entry::Http && self.rng.pct(30) {
-                self.mon_refused(c);
+                self.mon_refused(c, false);
             }
             if self.mon.chain && (i % self.walk_every == 0 || i + 1 == ops.len()) {
                 let all = self.walk_every > 1 || i % 8 == 7 || i + 1 == ops.len() || reopened;
